@@ -603,6 +603,11 @@ func (g *opGen) selectionSet(def *ast.Definition, depth int) string {
 	default:
 		parts = append(parts, g.fields(def, depth, used)...)
 	}
+	if (def.Kind == ast.Union || def.Kind == ast.Interface) && g.chance(g.p.PInline) {
+		// an inline fragment without type condition directly on the abstract type
+		g.tag("untyped-inline-on-abstract")
+		parts = append(parts, "... "+strings.TrimSpace(pick(g.r, []string{"", "@include(if: true)", "@skip(if: false)"}))+" { __typename }")
+	}
 	if len(parts) == 0 {
 		if def.Fields.ForName("id") != nil && g.r.Intn(2) == 0 {
 			parts = append(parts, "id")
